@@ -1039,6 +1039,19 @@ func (g *Gen) execReturn(st *State, r *ssa.Return) {
 	if g.spec == nil {
 		return
 	}
+	// `option constructor yes`: the function sets up its receiver before the receiver is shared (Start of a plugin): the
+	// lock obligations on the receiver's protected fields are waived (listed assumption) - and in exchange every monitor
+	// invariant of the receiver's type must hold when it returns, because the first Lock by anybody will assume it
+	if g.constructorRef != "" && g.W.monitors != nil && len(g.fn.Params) > 0 {
+		if base, ok := g.paramVals[g.fn.Params[0].Name()].(PtrV); ok && base.Cell == nil {
+			for _, mon := range g.W.monitors {
+				if typeKeyOfMonitor(mon) == base.RootKey {
+					ls := &lockSite{mon: mon, base: PtrV{RootKey: base.RootKey, Ref: base.Ref, Idx: base.Idx, Elem: base.Elem}, key: g.monKey(base, mon)}
+					g.monitorInvariant(st, ls, false, "return of the constructor")
+				}
+			}
+		}
+	}
 	ctx := &specCtx{g: g, st: st, old: g.entry, results: results, resultNames: g.resultNames(), paramsEntry: true}
 	for _, c := range g.spec.Ensures {
 		if g.driftedInv[c] {
